@@ -561,6 +561,12 @@ func genC15(g *Gen) {
 	inputs = append(inputs, garbage...)
 	inputs = append(inputs, long...)
 	inputs = append(inputs, nest("(", "1", ")", 4), nest("(", "1", ")", 10))
+	// deep nesting through every library entry point (linear with the memoizing parser; a parser that
+	// backtracks without memoization doubles its work per level)
+	for _, d := range []int{20, 26, 40, 100, 200} {
+		inputs = append(inputs, "return "+nest("(", "1", ")", d)+"\n", nest("(", "1", "", d), nest("2*(", "1", ")", d),
+			"a = "+nest("(", "1 + 1", ")", d)+"\nreturn a + "+nest("(", "a", ")", d))
+	}
 	safeInputs := inputs[:0]
 	for _, s := range inputs {
 		if shiftSafe(s) {
@@ -600,6 +606,10 @@ func genC15(g *Gen) {
 	stop()
 	for i := range results {
 		for _, l := range results[i] {
+			if l.outcome == "skipped" {
+				g.Count("lib-skipped-after-timeouts")
+				continue
+			}
 			g.Line("c15", "lib", l.entry, encHex(inputs[i]), l.outcome, encHex(l.panicMsg))
 			g.Count("lib:" + l.entry + "=" + l.outcome)
 			if l.outcome == "panic" {
@@ -613,6 +623,10 @@ func genC15(g *Gen) {
 			continue
 		}
 		l := calcRes[i]
+		if l.outcome == "skipped" {
+			g.Count("lib-skipped-after-timeouts")
+			continue
+		}
 		g.Line("c15", "lib", l.entry, encHex(calcIn[i]), l.outcome, encHex(l.panicMsg))
 		g.Count("lib:" + l.entry + "=" + l.outcome)
 	}
@@ -655,16 +669,38 @@ func libWatchdog() (stop func()) {
 	return func() { close(done) }
 }
 
+// libTimeouts counts calls that did not return within libBudget; after three of them the remaining
+// inputs are skipped (each abandoned call keeps a core busy).
+var libTimeouts int32
+
+const libBudget = 20 * time.Second
+
 func libCall(slot int, input string, entry string, f func() error) libLine {
+	if atomic.LoadInt32(&libTimeouts) >= 3 {
+		return libLine{entry, "skipped", ""}
+	}
 	libInput[slot].Store(entry + ": " + input)
-	atomic.StoreInt64(&libStart[slot], time.Now().UnixNano())
-	var err error
-	p := safe(func() { err = f() })
-	atomic.StoreInt64(&libStart[slot], 0)
+	type res struct {
+		p   string
+		err error
+	}
+	done := make(chan res, 1)
+	go func() {
+		var err error
+		p := safe(func() { err = f() })
+		done <- res{p, err}
+	}()
+	var r res
+	select {
+	case r = <-done:
+	case <-time.After(libBudget):
+		atomic.AddInt32(&libTimeouts, 1)
+		return libLine{entry, "timeout", ""}
+	}
 	switch {
-	case p != "":
-		return libLine{entry, "panic", p}
-	case err != nil:
+	case r.p != "":
+		return libLine{entry, "panic", r.p}
+	case r.err != nil:
 		return libLine{entry, "err", ""}
 	}
 	return libLine{entry, "ok", ""}
@@ -690,6 +726,10 @@ func libRun(slot int, s string) []libLine {
 		return err
 	})
 	out = append(out, l)
+	out = append(out, libCall(slot, s, "parse-reader", func() error {
+		_, err := parse.Reader("input", strings.NewReader(s))
+		return err
+	}))
 	if l.outcome != "ok" || tree == nil {
 		return out
 	}
